@@ -79,6 +79,42 @@ def ob_remove(n):
     return ob
 
 
+def ob_add_validator(n):
+    """the registry invariant RemoveValidator relies on: a validator is stored under its own address (the key RemoveValidator and
+    Redelegations look it up by), and adding one touches no other entry"""
+    def ob(ctx):
+        W = RegistryWorld(ctx, n)
+        W.install()
+        I = W.I
+        S = I.summ
+        addr = W.sv('new_validator')
+        msg = W.mk.variant('msg::ExecuteMsg', 'AddValidator', crate=W.crate, validator=Agg('Validator', (addr,)))
+
+        def q(T):
+            return {'delegations': [{'validator': T.string(v), 'amount': T.value(U128(a)), 'denom': 'usei'} for v, a in zip(W.vals, W.del_amounts)]}
+        nok = 0
+        for sender in (W.owner, W.hub):
+            raw_scenario(W, 'execute', msg, sender, querier=q)
+            for st, res in W.execute(msg, sender):
+                if not is_ok(res):
+                    ctx.infeasible(st, 'AddValidator by the owner / the hub succeeds', 'add:fails', W.mv)
+                    continue
+                nok += 1
+                ents = [e for e in W.map_entries(st, 'validators_registry') if e.present is not False]
+                hit = [z3.And(e.key[0][1] == addr.id, S.struct_eq(st, e.val.fields[0], addr)) if not isinstance(S.struct_eq(st, e.val.fields[0], addr), bool)
+                       else (e.key[0][1] == addr.id if S.struct_eq(st, e.val.fields[0], addr) else False) for e in ents]
+                hit = [h for h in hit if h is not False]
+                cl = [(z3.Or(*hit) if hit else False, 'the validator is registered under its own address', 'add:key')]
+                for e in ents:
+                    ok_e = S.struct_eq(st, e.val.fields[0], StrV(e.key[0][1]))
+                    cl.append((ok_e, 'every registry entry is keyed by the address it stores', 'add:keyed'))
+                cl.append((len(ents) <= n + 1 and len(ents) >= n, 'no other entry is added or removed', 'add:frame'))
+                ctx.require_all(st, [c for c in cl if c[0] is not True], W.mv)
+        ctx.need_witness('AddValidator Ok path', nok > 0)
+        ctx.witness_found('AddValidator explored with %d registered validators' % n)
+    return ob
+
+
 def ob_hub_proxy(ctx):
     """hub RedelegateProxy from the registry: one StakingMsg::Redelegate per entry, same src/dst/amount, no state change."""
     for nred in ((0, 1, 2, 8) if ctx.tier == 'quick' else (0, 1, 2, 3, 8, 12)):
@@ -112,7 +148,7 @@ def ob_hub_proxy(ctx):
     ctx.witness_found('proxy explored with 0..2 and 8 entries (thorough: 0..3, 8, 12)')
 
 
-OBLIGATIONS = [('remove_n%d' % n, ob_remove(n)) for n in (1, 2, 3, 4)] + [('hub_redelegate_proxy', ob_hub_proxy)]
+OBLIGATIONS = [('remove_n%d' % n, ob_remove(n)) for n in (1, 2, 3, 4)] + [('hub_redelegate_proxy', ob_hub_proxy), ('add_validator_n1', ob_add_validator(1))]
 
 
 def tier_filter(name, tier):
@@ -125,6 +161,26 @@ def ORACLE(v, scn, out):
     key = v.get('key') or ''
     res = out.get('result', {})
     what = key.split(':')[1]
+    if key.startswith('add:'):
+        if what == 'fails':
+            return [] if 'ok' in res else ['AddValidator failed: ' + str(res)[:200]]
+        if 'ok' not in res:
+            return []
+        from smir import rawstore as rs_
+        rp_ = rs_.lp(b'validators_registry')
+        post_ = {base64.b64decode(k): js.loads(base64.b64decode(val)) for k, val in out.get('storage', []) if base64.b64decode(k).startswith(rp_)}
+        pre_ = {base64.b64decode(k) for k, val in scn.get('storage', []) if base64.b64decode(k).startswith(rp_)}
+        new_addr = scn['msg']['add_validator']['validator']['address']
+        bad = []
+        if what == 'key' and post_.get(rp_ + new_addr.encode(), {}).get('address') != new_addr:
+            bad.append('validator %s is not stored under its own address: keys %r' % (new_addr, [k[len(rp_):] for k in post_]))
+        if what == 'keyed':
+            for k, val in post_.items():
+                if k[len(rp_):].decode('latin-1') != val.get('address'):
+                    bad.append('entry %r stores address %r' % (k[len(rp_):], val.get('address')))
+        if what == 'frame' and not (set(post_) >= pre_ and len(post_) <= len(pre_) + 1):
+            bad.append('other entries changed')
+        return bad
     if key.startswith('proxy:'):
         if what == 'fails':
             return [] if 'ok' in res else ['RedelegateProxy from the registry failed: ' + str(res)[:200]]
